@@ -376,6 +376,16 @@ theorem abs_rat_idem (q : Rat) : (if (if q < 0 then -q else q) < 0 then -(if q <
     simp [h, this]
   · simp [h]
 
+/-- **`generated_constructors_store_parameters`**: every parameter of add_junction / add_tank / add_reservoir / add_pipe / add_pump /
+add_valve / add_curve / add_pattern / add_source (model and registries, `ast` of model.py) is stored as given up to a normalisation of
+ITSELF (float(p), bool(int(p)), an enum of its name, a default for None): none is replaced by a value derived from other parameters or
+from the registry (`min_vol` recomputed from the volume curve at `min_level` would be listed here by name).  With the call-site table
+of `from_dict` (`dict_tables_ok`: which key is passed as which parameter) this is "restored faithfully" down to the attribute. -/
+theorem generated_constructors_store_parameters : suspicious Gen.ctorRows = [] := by decide +kernel
+
+example : suspicious [{ cls := "NodeRegistry.add_tank", key := "min_vol", atoms := [.toFloat, .readsOther], validates := false }] =
+    [("NodeRegistry.add_tank", "min_vol")] := by decide
+
 /-- the executable transformations fix their image, whatever the value -/
 theorem applyAtom_idem (lo : Int) (a : Atom) (v : JV) : applyAtom lo a (applyAtom lo a v) = applyAtom lo a v := by
   cases a <;> cases v <;> first
